@@ -323,6 +323,8 @@ impl<const H: usize> Writer<H> {
         self.writer.get_ref().write_all_at(&zero_header, offset)?;
         self.writer.get_ref().sync_data()?;
 
+        #[cfg(sierradb_verif)]
+        crate::verif::record_durable(self.writer.get_ref(), offset);
         // Everything before `offset` is now durable; publish exactly that. Readers must drop
         // whatever they cached beyond it.
         self.flushed_offset.invalidate();
@@ -351,6 +353,8 @@ impl<const H: usize> Writer<H> {
             trace!("flushing writer");
             self.writer.flush()?;
             self.writer.get_ref().sync_data()?;
+            #[cfg(sierradb_verif)]
+            crate::verif::record_durable(self.writer.get_ref(), self.write_offset);
             self.flushed_offset.set(self.write_offset);
             self.dirty = false;
         }
